@@ -161,7 +161,7 @@ func runC02(r *Run) {
 	// (codes the library may not send and reasons that do not fit are part of
 	// "any sequence of API calls": whatever Close does with them, the Close frame
 	// it emits must be sendable)
-	closeCode := []int{1000, 1001, 1008, 3000, 4999, 1005, 1006, 1015, 999, 5000, 0, 1016, 2999}[t.Weighted(4, 3, 3, 3, 3, 3, 1, 1, 1, 1, 1, 1, 1)]
+	closeCode := []int{1000, 1001, 1008, 3000, 4999, 1005, 1006, 1015, 999, 5000, 0, 1016, 2999, 1004}[t.Weighted(4, 3, 3, 3, 3, 3, 1, 1, 1, 1, 1, 1, 1, 2)]
 	reasonLen := []int{0, 5, 123, 122, 124, 125, 126, 127, 300, 70000}[t.Weighted(4, 4, 4, 2, 3, 3, 2, 1, 1, 1)]
 	earlyClose := t.Pct(30)
 	closeAfter := t.Draw(6)
